@@ -7,6 +7,9 @@
 #include "common.h"
 #include <eventpp/callbacklist.h>
 #include <eventpp/utilities/eventutil.h>
+#include <eventpp/utilities/counterremover.h>
+#include <eventpp/utilities/conditionalremover.h>
+#include <eventpp/utilities/scopedremover.h>
 
 #ifndef VH_THREADING
 #define VH_THREADING eventpp::SingleThreading
@@ -27,6 +30,17 @@ struct CbFn {
 };
 
 using CL = eventpp::CallbackList<void(int), Policies>;
+using SR = eventpp::ScopedRemover<CL>;
+
+// condition of a ConditionalRemover: a function of the trigger's argument; counts its evaluations
+struct CondFn {
+	long m, r;
+	std::shared_ptr<long> evals;
+	bool operator()(int arg) const { ++*evals; return m > 0 && (arg % m) == r; }
+};
+
+// the CbFn inside a stored callable: plain, or wrapped by CounterRemover / ConditionalRemover
+static CbFn * fnOf(CL::Callback & cb);
 
 struct World {
 	const Script * script;
@@ -95,6 +109,17 @@ struct World {
 			reg(h);
 			res("h" + std::to_string(id));
 		}
+		else if(op == "counted" || op == "conditional") {
+			int l = (int)c.n(1);
+			long id = (long)handles.size();
+			CbFn fn{c.n(2), id, l};
+			CL::Handle h;
+			if(op == "counted") h = eventpp::counterRemover(*lists[l]).append(fn, (int)c.n(3));
+			else h = eventpp::conditionalRemover(*lists[l]).append(fn, CondFn{c.n(3), c.n(4), std::make_shared<long>(0)});
+			reg(h);
+			res("h" + std::to_string(id));
+		}
+		else if(op.size() > 1 && op[0] == 'r' && op != "remove") { execRemover(c); }
 		else if(op == "remove") { res(lists[c.n(1)]->remove(handleOf(c.n(2))) ? "true" : "false"); }
 		else if(op == "owns") { res(lists[c.n(1)]->ownsHandle(handleOf(c.n(2))) ? "true" : "false"); }
 		else if(op == "empty") { res(lists[c.n(1)]->empty() ? "true" : "false"); }
@@ -111,7 +136,7 @@ struct World {
 			++busyCount[l];
 			bool r = lists[l]->forEachIf([this, l, arg](const CL::Handle & h, CL::Callback & cb) -> bool {
 				(void)h;
-				CbFn * fn = cb.target<CbFn>();
+				CbFn * fn = fnOf(cb);
 				bool v = true;
 				runBeh(l, fn->hid, fn->cb, arg, true, v);
 				return v;
@@ -138,13 +163,58 @@ struct World {
 		else { out.push_back("bad-op " + op); }
 	}
 
+	// ---- ScopedRemover commands (top level only) ----
+	std::map<int, std::unique_ptr<SR>> rems;
+	std::map<int, int> rtarget;
+	void execRemover(const Cmd & c) {
+		const std::string & op = c.op();
+		int r = (int)c.n(1);
+		bool has = rems.count(r) > 0;
+		if(op == "rnew") {
+			if(has) { res("skip"); return; }
+			rems[r].reset(new SR(*lists[c.n(2)])); rtarget[r] = (int)c.n(2); res("unit");
+		}
+		else if(op == "rappend" || op == "rprepend" || op == "rinsert") {
+			if(!has) { res("skip"); return; }
+			long id = (long)handles.size();
+			CbFn fn{c.n(2), id, rtarget[r]};
+			CL::Handle h;
+			if(op == "rappend") h = rems[r]->append(fn);
+			else if(op == "rprepend") h = rems[r]->prepend(fn);
+			else h = rems[r]->insert(fn, handleOf(c.n(3)));
+			reg(h);
+			res("h" + std::to_string(id));
+		}
+		else if(op == "rremove") { if(!has) { res("skip"); return; } res(rems[r]->remove(handleOf(c.n(2))) ? "true" : "false"); }
+		else if(op == "rreset") { if(!has) { res("skip"); return; } rems[r]->reset(); res("unit"); }
+		else if(op == "rtarget") { if(!has) { res("skip"); return; } rems[r]->setCallbackList(*lists[c.n(2)]); rtarget[r] = (int)c.n(2); res("unit"); }
+		else if(op == "rmovector") {
+			int src = (int)c.n(2);
+			if(has || !rems.count(src)) { res("skip"); return; }
+			rems[r].reset(new SR(std::move(*rems[src]))); rtarget[r] = rtarget[src]; res("unit");
+		}
+		else if(op == "rmoveassign") {
+			int src = (int)c.n(2);
+			if(!has || !rems.count(src)) { res("skip"); return; }
+			if(r != src) { *rems[r] = std::move(*rems[src]); rtarget[r] = rtarget[src]; }
+			res("unit");
+		}
+		else if(op == "rswap") {
+			int b = (int)c.n(2);
+			if(!has || !rems.count(b)) { res("skip"); return; }
+			rems[r]->swap(*rems[b]); std::swap(rtarget[r], rtarget[b]); res("unit");
+		}
+		else if(op == "rdestroy") { if(!has) { res("skip"); return; } rems.erase(r); res("unit"); }
+		else out.push_back("bad-op " + op);
+	}
+
 	// after a copy: the clones are new nodes; give them ids in list order and fix the ids the
 	// copied functors carry
 	void relabel(int l) {
 		auto node = lists[l]->head;
 		while(node) {
 			long id = (long)handles.size();
-			CbFn * fn = node->callback.target<CbFn>();
+			CbFn * fn = fnOf(node->callback);
 			fn->hid = id; fn->list = l;
 			reg(CL::Handle(node));
 			node = node->next;
@@ -152,7 +222,7 @@ struct World {
 	}
 	void retarget(int l) {
 		auto node = lists[l]->head;
-		while(node) { node->callback.target<CbFn>()->list = l; node = node->next; }
+		while(node) { fnOf(node->callback)->list = l; node = node->next; }
 	}
 
 	long idOfNode(const void * p) { auto it = idOf.find(p); return it == idOf.end() ? -1 : it->second; }
@@ -163,7 +233,7 @@ struct World {
 			auto node = lists[l]->head;
 			int guard = 0;
 			while(node && guard++ < 100000) {
-				CbFn * fn = node->callback.target<CbFn>();
+				CbFn * fn = fnOf(node->callback);
 				s += " " + std::to_string(idOfNode(node.get())) + ":" + std::to_string(fn->cb);
 				node = node->next;
 			}
@@ -178,12 +248,21 @@ struct World {
 			auto sp = handles[i].lock();
 			if(!sp) continue;
 			nodes += " " + std::to_string(i) + "," + opt(sp->previous.get()) + "," + opt(sp->next.get()) + ","
-				+ std::to_string(sp->counter) + "," + std::to_string(sp->callback.target<CbFn>()->cb);
+				+ std::to_string(sp->counter) + "," + std::to_string(fnOf(sp->callback)->cb);
 		}
 		out.push_back(nodes);
 	}
 	std::string opt(const void * p) { return p ? std::to_string(idOfNode(p)) : std::string("-"); }
 };
+
+static CbFn * fnOf(CL::Callback & cb) {
+	if(CbFn * f = cb.target<CbFn>()) return f;
+	using CW = eventpp::CounterRemover<CL>::Wrapper<CbFn>;
+	if(CW * w = cb.target<CW>()) return &w->data->listener;
+	using DW = eventpp::ConditionalRemover<CL>::ItemByCondition<CbFn, CondFn>;
+	if(DW * w = cb.target<DW>()) return &w->data->listener;
+	return nullptr;
+}
 
 void CbFn::operator()(int arg) const {
 	bool v;
